@@ -39,7 +39,10 @@ ANCHORS = {
 
 def gen_cases(tier, seed):
     n = 96 if tier == "quick" else 1500
-    return [{"id": f"run{i}", "seed": [seed, i]} for i in range(n)]
+    cases = [{"id": f"run{i}", "seed": [seed, i]} for i in range(n)]
+    for i in range(32 if tier == "quick" else 400):
+        cases.append({"id": f"ddp{i}", "family": "ddp", "seed": [seed, "ddp", i]})
+    return cases
 
 
 def make_run(case):
@@ -83,7 +86,7 @@ def snapshot(opt, params, torch, OM):
     out = []
     for i, p in enumerate(params):
         out.append((("param", i), sha(p.detach())))
-        for path, t in walk_state(opt.state[p], torch, OM):
+        for path, t in walk_state(opt.state.get(p, {}), torch, OM):
             out.append(((i,) + path, sha(t)))
     return out
 
@@ -94,7 +97,111 @@ def _set_grads(torch, G, params, run, gg_stream, t):
         p.grad = None if g is None else g.clone()
 
 
+def _ddp_rank(ds, torch, OM, S, seed, stops, rank, world):
+    """uninterrupted DDP run on this rank; at each stop step: save -> torch.save/load -> fresh DDP optimizer -> load -> continue
+    to the end, comparing bit for bit.  All ranks take the same stop steps (optimizer construction is collective)."""
+    from .. import gen as G
+    from ..distlib import ddp_config
+    from . import c06
+
+    cfg = S["cfg"]
+    dt = getattr(torch, cfg["param_dtype"])
+    init = G.make_params(torch, S["shapes"], dt, tgen(*seed, "init"), scale=S["grad_scale"])
+    dcfg = lambda: ddp_config(ds, S["comm"], S["G"], S["communicate_params"])  # noqa
+    names = lambda P: [(f"p{i}", p) for i, p in enumerate(P)]  # noqa
+
+    def snap(opt, ps):
+        out = []
+        for i, p in enumerate(ps):
+            out.append((("param", i), sha(p.detach())))
+            for path, t in walk_state(opt.state.get(p, {}), torch, OM):
+                out.append(((i,) + path, sha(t)))
+        return out
+
+    ps = [torch.nn.Parameter(p.detach().clone()) for p in init]
+    opt = G.build_optimizer(ds, torch, cfg, ps, distributed_config=dcfg())
+    traj, saved = [], {}
+    it = 0
+    for t in range(S["T"]):
+        world.iteration(it)
+        it += 1
+        for p, g in zip(ps, c06._grads(torch, G, S, seed, t)):
+            p.grad = None if g is None else g.clone()
+        opt.step()
+        traj.append(snap(opt, ps))
+        if t + 1 in stops:
+            b = io.BytesIO()
+            torch.save(opt.distributed_state_dict(key_to_param=iter(names(ps))), b)
+            saved[t + 1] = (b.getvalue(), [p.detach().clone() for p in ps])
+    stats = {"resumes": 0, "steps_after_resume": 0, "tensors_compared": 0, "dtensor_leaves": 0}
+    for k in sorted(stops):
+        blob, vals = saved[k]
+        ps2 = [torch.nn.Parameter(v.clone()) for v in vals]
+        o2 = G.build_optimizer(ds, torch, cfg, ps2, distributed_config=dcfg())
+        sd = torch.load(io.BytesIO(blob), weights_only=False)
+        stats["dtensor_leaves"] += sum(1 for st in sd["state"].values() for v in st.values() if hasattr(v, "to_local"))
+        o2.load_distributed_state_dict(sd, key_to_param=iter(names(ps2)))
+        stats["resumes"] += 1
+        for t in range(k, S["T"]):
+            world.iteration(it)
+            it += 1
+            for p, g in zip(ps2, c06._grads(torch, G, S, seed, t)):
+                p.grad = None if g is None else g.clone()
+            o2.step()
+            stats["steps_after_resume"] += 1
+            sn = snap(o2, ps2)
+            stats["tensors_compared"] += len(sn)
+            if [a for a, _ in sn] != [a for a, _ in traj[t]]:
+                raise Violation(f"rank {rank}: resume from step {k}: the set of state tensors at step {t + 1} differs from the uninterrupted run", stop_step=k, step=t + 1, rank=rank)
+            for (pa, ha), (_, hb) in zip(sn, traj[t]):
+                if ha != hb:
+                    raise Violation(f"rank {rank}: resume from step {k}: {pa} at step {t + 1} differs from the uninterrupted run (DDP / DTensor state)", stop_step=k, step=t + 1, rank=rank, tensor=[str(x) for x in pa])
+    return stats
+
+
+def _run_ddp(case):
+    ds = import_repo()
+    import torch
+    from optimizer_modules import OptimizerModule as OM
+
+    from .. import ranksim
+    from . import c06
+
+    S = c06.make_setup({"seed": case["seed"]})
+    S["W"] = min(S["W"], 4)
+    if S["W"] % S["G"]:
+        S["G"] = max(d for d in range(1, S["W"] + 1) if S["W"] % d == 0 and d <= S["G"])
+    S["T"] = min(S["T"], 7)
+    rnd = rng_for(*case["seed"], "stops")
+    stops = set(rnd.sample(range(1, S["T"]), min(2, S["T"] - 1)))
+    world = ranksim.World(S["W"], interleave_seed=3)
+    results = world.run(lambda rank, w: _ddp_rank(ds, torch, OM, S, case["seed"], stops, rank, w))
+    desc = {"family": "ddp", "W": S["W"], "G": S["G"], "comm": S["comm"], "communicate_params": S["communicate_params"], "cfg": S["cfg"], "shapes": S["shapes"], "presence": S["presence"], "stops": sorted(stops)}
+    if world.errors:
+        r = sorted(world.errors)[0]
+        e = world.errors[r][0]
+        if isinstance(e, Violation):
+            e.witness.update(desc)
+        raise e
+    try:
+        world.check_ledger("DDP checkpoint resume")
+    except Violation as v:
+        v.witness.update(desc)
+        raise
+    counters = {"evals": 0, "ddp_resumes": 0, "ddp_steps_after_resume": 0, "ddp_dtensor_leaves_saved": 0, "tensors_compared": 0}
+    for r, st in results.items():
+        counters["ddp_resumes"] += st["resumes"]
+        counters["evals"] += st["resumes"]
+        counters["ddp_steps_after_resume"] += st["steps_after_resume"]
+        counters["ddp_dtensor_leaves_saved"] += st["dtensor_leaves"]
+        counters["tensors_compared"] += st["tensors_compared"]
+    sig = ["ddp", S["W"], S["G"], S["comm"], S["communicate_params"], S["cfg"]["precond"]["kind"], (S["cfg"]["grafting"] or {}).get("type", "none")]
+    return {"counters": counters, "sigs": [sig] if S["W"] >= 2 else [], "sample": {k: desc[k] for k in ("family", "W", "G", "comm", "shapes", "stops")}}
+
+
 def run_case(case):
+    if case.get("family") == "ddp":
+        return _run_ddp(case)
     ds = import_repo()
     import torch
     from optimizer_modules import OptimizerModule as OM
@@ -129,9 +236,9 @@ def run_case(case):
         sd = opt.distributed_state_dict(key_to_param=iter(names(params)))
         # key uniqueness: one flat key per tensor reachable in optimizer.state[p]
         for i, p in enumerate(params):
-            n_reach = sum(1 for _ in walk_state(opt.state[p], torch, OM))
+            n_reach = sum(1 for _ in walk_state(opt.state.get(p, {}), torch, OM))
             counters["key_uniqueness_checked"] += 1
-            if len(sd["state"][f"p{i}"]) != n_reach:
+            if len(sd["state"].get(f"p{i}", {})) != n_reach:
                 raise Violation(f"saved state of parameter {i} has {len(sd['state'][f'p{i}'])} flat keys but {n_reach} tensors are reachable in optimizer.state (a tensor is missing or two blocks share a key)", **desc)
         b = io.BytesIO()
         torch.save(sd, b)
@@ -223,6 +330,6 @@ def run_case(case):
 
 
 def conclusive(agg, results, tier):
-    need = {"resumes": 500, "steps_after_resume": 2000, "negative_loads": 1000, "resume_after_mask_change": 50, "key_uniqueness_checked": 500}
+    need = {"resumes": 500, "steps_after_resume": 2000, "negative_loads": 1000, "resume_after_mask_change": 50, "key_uniqueness_checked": 500, "ddp_resumes": 50, "ddp_dtensor_leaves_saved": 100}
     low = {k: agg.get(k, 0) for k in need if agg.get(k, 0) < need[k]}
     return f"too few observations: {low}" if low else None
